@@ -76,7 +76,11 @@ def concrete(kind, rng, nprng):
   if kind == 'jax_array':
     return rng.choice([jnp.array(nprng.randn(2, 3), jnp.float32), jnp.array([1, 2, 3], jnp.int32), jnp.array(nprng.randn(4), jnp.bfloat16)])
   if kind == 'nd_bytes_obj':
-    return rng.choice([np.array([b'ab', b'', b'\x00\xff'], dtype=object), np.array([[b'x', b'yy'], [b'', b'z\x00']], dtype=object)])
+    two = np.array([[b'x', b'yy', b'q'], [b'', b'z\x00', b'\xff']], dtype=object)
+    three = np.array([[[b'a%d%d%d' % (i, j, k) for k in range(2)] for j in range(3)] for i in range(2)], dtype=object)
+    # every memory layout: row-major, column-major, transposed and permuted views, strided
+    return rng.choice([np.array([b'ab', b'', b'\x00\xff'], dtype=object), two, np.asfortranarray(two), two.T, three.transpose(1, 0, 2), three[:, ::2, ::-1],
+                       np.asfortranarray(three)])
   if kind == 'nd_bytes_obj_empty':
     return np.array([], dtype=object)
   if kind == 'np_scalar':
@@ -248,4 +252,16 @@ def run(ctx):
     ctx.case(key=('state', name), nontrivial=True)
     if fingerprint(back) != fingerprint(st) or fingerprint(back2) != fingerprint(st) or rn != 3:
       ctx.violation(f'state-roundtrip:{name}', f'{name}: a saved server state does not load back equal (round {rn})', replay={'state': name})
+      continue
+    # a later save that fails (a state that cannot be pickled) must not cost the checkpoint already made
+    failed = False
+    try:
+      checkpoint.save_checkpoint(d, {'ok': np.arange(3), 'bad': (lambda: 0)}, round_num=4, keep=1 if len(name) % 2 else 2)
+    except Exception:  # pylint: disable=broad-except
+      failed = True
+    got = checkpoint.load_latest_checkpoint(d)
+    replayed += 1
+    if failed and (got is None or got[1] != 3 or fingerprint(got[0]) != fingerprint(st)):
+      ctx.violation('state-roundtrip:lost-after-failed-save', f'{name}: after a later save raised, load_latest_checkpoint returns {"nothing" if got is None else "round %d" % got[1]} '
+                    f'instead of the state saved at round 3', replay={'state': name})
   ctx.trace_ok(replayed)
